@@ -126,6 +126,10 @@ fn corpus() -> &'static (Vec<String>, Vec<String>) {
     })
 }
 
+pub fn corpus_programs() -> &'static Vec<String> {
+    &corpus().0
+}
+
 thread_local! {
     static PARSERS: (chalk_parse::parser::ProgramParser, chalk_parse::parser::GoalParser) = (chalk_parse::parser::ProgramParser::new(), chalk_parse::parser::GoalParser::new());
 }
